@@ -6,6 +6,7 @@ import (
 	"fmt"
 	"io/fs"
 	"log/slog"
+	"math"
 	"net/http"
 	"net/netip"
 	"net/url"
@@ -785,14 +786,27 @@ func checkPermissions(
 	permcheck.Check(ctx, l, workDir, dataDir, statsDir, querylogDir, confPath)
 }
 
+// authBlockDur converts the number of minutes from the configuration file into
+// the duration of the block of login attempts.  Values that do not fit into
+// [time.Duration], which is about 292 years, are replaced with the maximum
+// duration instead of overflowing into a short or a negative one.
+func authBlockDur(blockMin uint) (dur time.Duration) {
+	const maxDur time.Duration = math.MaxInt64
+
+	if uint64(blockMin) > uint64(maxDur/time.Minute) {
+		return maxDur
+	}
+
+	return time.Duration(blockMin) * time.Minute
+}
+
 // initUsers initializes context auth module.  Clears config users field.
 func initUsers() (auth *Auth, err error) {
 	sessFilename := filepath.Join(globalContext.getDataDir(), "sessions.db")
 
 	var rateLimiter *authRateLimiter
 	if config.AuthAttempts > 0 && config.AuthBlockMin > 0 {
-		blockDur := time.Duration(config.AuthBlockMin) * time.Minute
-		rateLimiter = newAuthRateLimiter(blockDur, config.AuthAttempts)
+		rateLimiter = newAuthRateLimiter(authBlockDur(config.AuthBlockMin), config.AuthAttempts)
 	} else {
 		log.Info("authratelimiter is disabled")
 	}
